@@ -8,7 +8,7 @@ RULE = "shared::rule::Rule"
 
 def _binding_part(b, op, param, depth=0):
     """'key' / 'value' / 'pair' if the operand is (derived from) an entry of the map passed as parameter `param`"""
-    if depth > 8:
+    if depth > 14:
         return None
     o = b.origin(op, stop_named=False)
     if o[0] == "call":
@@ -19,8 +19,10 @@ def _binding_part(b, op, param, depth=0):
             return "key"
         if c.name() in ("values", "into_values") and c.args and b.alias_root(c.args[0]) == param:
             return "value"
-        if c.name() in ("iter", "into_iter") and c.args and b.alias_root(c.args[0]) == param:
-            return "pair"
+        if c.name() in ("iter", "into_iter", "iter_mut", "by_ref", "peekable", "rev") and c.args:
+            if b.alias_root(c.args[0]) == param:
+                return "pair"
+            return _binding_part(b, c.args[0], param, depth + 1)
         if c.name() == "next" and c.args:
             return _binding_part(b, c.args[0], param, depth + 1)
         return None
